@@ -261,7 +261,7 @@ def main(argv=None):
         repo_py = os.path.realpath(env.REPO_PY) + os.sep
         inner = os.path.realpath(tb[-1].filename) if tb else ""
         remote = getattr(getattr(e, "__cause__", None), "tb", None)
-        if not isinstance(remote, str) and "Traceback (most recent call last)" in str(e):
+        if not isinstance(remote, str) and 'File "' in str(e) and ", line " in str(e):
             remote = str(e)  # a helper subprocess of the harness died and its traceback was passed on
         if isinstance(remote, str):  # the exception crossed a process boundary: innermost REMOTE frame
             import re as _re
